@@ -28,12 +28,12 @@ func init() {
 // frozen exception tables -------------------------------------------------------------------------
 
 var c14ReflectExceptions = map[string]string{
-	"internal.concatMaps: Value.Type on Value.MapIndex (missing key)":        "",
-	"internal.concatMaps: Value.Interface on Value.MapIndex (missing key)":   "rms.MapIndex(key) for key ranging over rms.MapKeys(): the key is present by construction",
-	"internal.concatMaps: Value.MapKeys on Value.MapIndex (missing key)":     "",
-	"internal.mapToStruct: Value.Set on Value.FieldByName (missing field)":   "mapToStruct is only applied to maps produced by structToMap of the same struct type (keys are its field names); not part of the concat closure reachable from ConcatItems",
+	"internal.concatMaps: Value.Type on Value.MapIndex (missing key)":                         "",
+	"internal.concatMaps: Value.Interface on Value.MapIndex (missing key)":                    "rms.MapIndex(key) for key ranging over rms.MapKeys(): the key is present by construction",
+	"internal.concatMaps: Value.MapKeys on Value.MapIndex (missing key)":                      "",
+	"internal.mapToStruct: Value.Set on Value.FieldByName (missing field)":                    "mapToStruct is only applied to maps produced by structToMap of the same struct type (keys are its field names); not part of the concat closure reachable from ConcatItems",
 	"internal.GetConcatFunc$1: Value.Call on reflect.ValueOf(fn) of a possibly nil interface": "fn is a value of the concatFuncs registry; RegisterStreamChunkConcatFunc stores non-nil function values and the comma-ok lookup guards the literal's creation",
-	"internal.ConcatItems: Value.Interface on Value.MapIndex (missing key)":  "",
+	"internal.ConcatItems: Value.Interface on Value.MapIndex (missing key)":                   "",
 }
 
 var c14AssertExceptions = map[string]string{
@@ -125,6 +125,30 @@ func runC14(w *World, r *Report) {
 		tsv := w.Fn("internal", "toSliceValue")
 		n := len(callsNamed(tsv, "reflect.TypeOf"))
 		r.Check(n >= 1, "C14.reflect-zero", "toSliceValue reflect.TypeOf inspected", tsv.Pos(), fmt.Sprintf("%d TypeOf sites under the typestate rule", n), "toSliceValue no longer derives the element type with reflect.TypeOf: rule anchors drifted")
+	}
+
+	// ---- bounded-index: chunks of one stream are indexed by a bound taken from another chunk only after
+	// their shapes were compared
+	r.Rule("C14.bounded-index", "every non-constant slice index in the concat closure is below a bound that the indexed slice's length is shown to reach", 6)
+	{
+		keys := map[string]int{}
+		for _, f := range closure {
+			for _, site := range indexSites(f) {
+				base := fmt.Sprintf("%s: %s[%s]", w.fname(origin(f)), valText(site.slice), valText(site.index))
+				keys[base]++
+				construct := base
+				if keys[base] > 1 {
+					construct = fmt.Sprintf("%s #%d", base, keys[base])
+				}
+				if site.ok {
+					r.OK("C14.bounded-index", construct, site.in.Pos(), site.why)
+				} else if reason, ok := c14BoundsExceptions[base]; ok {
+					r.Except("C14.bounded-index", construct, site.in.Pos(), reason)
+				} else {
+					r.Fail("C14.bounded-index", construct, site.in.Pos(), site.why+": a chunk shorter than the bound makes the concatenation panic (index out of range) instead of returning an error, and whether it does depends on the order of the chunks")
+				}
+			}
+		}
 	}
 
 	// ---- unchecked-assert
@@ -264,4 +288,11 @@ func runC14(w *World, r *Report) {
 		}
 		r.Check(good, "C14.nil-chunk", "ConcatMessages: nil chunk is an error", f.Pos(), "msg == nil returns an error before any field access", "a nil chunk is dereferenced")
 	}
+}
+
+var c14BoundsExceptions = map[string]string{
+	"schema.concatToolCalls: chunks[range-value[0]]":              "the group lists hold positions of `chunks` recorded by the first loop (`for i := range chunks { m[*index] = append(m[*index], i) }`): a data invariant of the function, not a guard; chunks is not resliced in between",
+	"schema.concatToolCalls: chunks[range-value[rangeindex + 1]]": "same: the ranged values are positions recorded from `for i := range chunks`",
+	"schema.concatToolCalls$1: merged[i]":                         "less function of sort.SliceStable(merged, …): the sort package calls it with 0 <= i, j < len(merged)",
+	"schema.concatToolCalls$1: merged[j]":                         "less function of sort.SliceStable(merged, …): the sort package calls it with 0 <= i, j < len(merged)",
 }
